@@ -27,12 +27,12 @@ func outRoot() string {
 
 // PropConfig is the per-property configuration in /verif/props.json.
 type PropConfig struct {
-	Packages   []string `json:"packages"`
-	Title      string   `json:"title"`
-	NotDecided []string `json:"not_decided"`
-	Assumed    []string `json:"assumed"`
-	Bounded    []string `json:"bounded"` // names of bounded stand-in harnesses
-	Lemmas     []string `json:"lemmas"`  // lemma smt2 files (relative to /verif/lemmas)
+	Packages       []string `json:"packages"`
+	Title          string   `json:"title"`
+	NotDecided     []string `json:"not_decided"`
+	Assumed        []string `json:"assumed"`
+	Bounded        []string `json:"bounded"`         // names of bounded stand-in harnesses
+	Lemmas         []string `json:"lemmas"`          // lemma smt2 files (relative to /verif/lemmas)
 	RecursionSweep []string `json:"recursion_sweep"` // package short names swept for unproved recursion
 	RecursionAllow []string `json:"recursion_allow"` // structural recursions over finite input data, listed as assumptions
 }
@@ -257,11 +257,11 @@ func runCheck(prop string, thorough bool, repo string, writeExpected bool) int {
 	violations := len(failed)
 	extra := map[string]any{
 		"vacuity_probes": nVac, "vacuity_ok": nVacOK,
-		"solver_time_s": float64(solverMs) / 1000.0,
-		"backends":      backends,
-		"known_findings_hit": knownHit,
+		"solver_time_s":       float64(solverMs) / 1000.0,
+		"backends":            backends,
+		"known_findings_hit":  knownHit,
 		"unreachable_returns": unreachable,
-		"bounded":       boundedOut,
+		"bounded":             boundedOut,
 	}
 	writeEvidence(prop, tier, seed, t0, reports, outs, extra, pc, violations, structErrs, []int{nObl, nDis})
 	if violations > 0 {
